@@ -19,7 +19,8 @@ func DefaultNumGoroutines() int {
 	// the number of virtual cores, which GOMAXPROCS
 	// is. Hyperthreading doesn't actually help our workload, and
 	// indeed it hurts it a bit.
-	if physicalCores < numGoroutines {
+	// PhysicalCores is 0 when cpuid couldn't detect it.
+	if physicalCores > 0 && physicalCores < numGoroutines {
 		numGoroutines = physicalCores
 	}
 	return numGoroutines
